@@ -58,6 +58,21 @@ PROPERTIES = {
               'Partial: recursive variants (Code, annotations, Record, Module, StackMapTable, MethodParameters ...), _len/_read and the read side are not under contract.',
         note='Trusted: Verus+Z3; rustc -Zunpretty=expanded as the source of the verified text; arm lifting; sink model vw_write (Vec<u8> write_all appends big-endian bytes, never fails); vectors fit their count field.',
         out=['recursive attribute variants using this._len()', 'AttributeInfo::_read / _len, ClassFile::read (pool with long/double)', 'CpInfo, FieldInfo, MethodInfo writers']),
+    'C07': dict(
+        level='proof', verus=['remap'], kani=[],
+        technique=VERUS_TECH,
+        claim='Unbounded proof, for the functions under contract only: every `impl Mappable / MappableWithClassName for X` of dukebox/src/remap.rs returns a value in which every field / enum payload whose type carries '
+              'class, field or method references holds the remapped value of the input\'s field (the remapper\'s own answer at the leaves), and every other field is unchanged (nothing dropped). '
+              'Partial: that Option<T> / Vec<T> map element-wise is assumed; jar level (entry names, zip I/O) and the remapper itself (C06) are not under contract here.',
+        note='Trusted: Verus+Z3; extraction rewrites (trait impls emitted as inherent impls, component calls resolved to a blanket stub with the contract == sp_remap); the reference-carrying type table written from the property statement; opaque name types.',
+        out=['dukebox/src/remap.rs remap / remap_jar_entry_name (jar level, zip I/O)', 'blanket impls for Option<T> / Vec<T> / &T (closures, iterator adapters)', 'impl Mappable for InnerClass (closure + transpose)']),
+    'C15': dict(
+        level='proof', verus=['bridge'], kani=[],
+        technique=VERUS_TECH,
+        claim='Unbounded proof, for the one function under contract: is_potential_bridge answers exactly "inheritable (not private, static or final), same arity, position-wise bridge-compatible parameter and return types" '
+              'for all descriptors and flag combinations. Partial: everything else of the pass (call-target index built by the visitor, are_types_bridge_compatible over the inheritance graph, hierarchy tie-break, mapping insertion) is not under contract.',
+        note='Trusted: Verus+Z3; nested fn cut out of get_specialized_methods; MethodDescriptor::parse and are_types_bridge_compatible are opaque functions of their arguments; opaque tree types.',
+        out=['src/specialized_methods/mod.rs visitor index, are_types_bridge_compatible, get_higher_method, the filter chain and mapping insertion']),
     'C09': dict(
         level='proof', verus=[], kani=['merge'], enum=['maps'],
         technique=KANI_COMPLETE,
@@ -136,9 +151,7 @@ PROPERTIES = {
 
 NOT_APPLICABLE = {
     'C05': 'file-system scan + petgraph A* inside the binary crate; nothing on the path is free of I/O or external data structures that a contract could be attached to',
-    'C07': 'whole-tree Mappable traversal + zip I/O; the property is a completeness statement over ~60 tree types that cannot be brought into a single-file Verus unit nor executed by CBMC',
     'C12': 'as C03, plus directory tree I/O (walkdir)',
     'C14': 'string surgery on JavaString + IndexMap recursion + jar I/O; the claim relates two whole-program transformations',
-    'C15': 'code lives in the binary crate (tokio/reqwest/zip dependency closure not compilable by Kani), predicates over IndexMap/IndexSet graphs',
     # not yet built in this session (moved to claimed checks as they are built):
 }
